@@ -1,6 +1,6 @@
 (* Extract/ExtractC19.v — uniquely named wrappers (models AND specifications) and their extraction for driver_c19. *)
 From Coq Require Import Extraction ExtrOcamlBasic.
-From PV Require Import Base.Bytes Base.Outcome Base.DrvBase Gen.GenRipemd Spec.RipemdSpec Spec.MurmurSpec Model.Ripemd Model.Murmur.
+From PV Require Import Base.Bytes Base.Outcome Base.DrvBase Gen.GenRipemd Spec.RipemdSpec Spec.MurmurSpec Model.Ripemd Model.Murmur Proofs.BloomHistC19.
 Local Open Scope Z_scope.
 
 Definition c19_fi := Ripemd.fi.
@@ -30,6 +30,11 @@ Definition c19_bloom_bits (size : Z) (sets checks : list Z) : outcome (bytes * l
   bind (c19_set_bits st sets) (fun st' =>
   bind (mapM (check_bit st') checks) (fun cs => Ret (bf_bytes st', cs)))).
 
+(* histories of one BloomFilter object: the model, and the memory-less specification *)
+Definition c19_bloom_history := bloom_history.
+Definition c19_spec_history (size k tweak : Z) (ops : list bloom_op) : bytes * list bloom_obs :=
+  let '(s, os) := spec_run (repeat x00 (Z.to_nat size), k, tweak) ops in (fst (fst s), os).
+
 Extraction "../ml/c19.ml" drv_base c19_fi c19_rol c19_compress c19_pure_ripemd160 c19_spec_ripemd160 c19_choice
   c19_hash_ripemd160 c19_hash160 c19_double_sha256 c19_murmur3 c19_spec_murmur3 c19_bloom c19_spec_bloom
-  c19_spec_contains c19_bloom_bits.
+  c19_spec_contains c19_bloom_bits c19_bloom_history c19_spec_history.
